@@ -587,6 +587,9 @@ class ExtendedIndexedOperand(Operand):
         if self.left == "" and "PCR" in self.right:
             raise OperandTypeError("[{}] invalid indexed expression".format(self.operand_string))
 
+        if self.left != "" and self.left not in ["A", "B", "D"] and ("+" in self.right or "-" in self.right):
+            raise OperandTypeError("[{}] invalid indexed expression".format(self.operand_string))
+
         if self.left == "" or (type(self.left) != str and self.left.is_numeric() and self.left.int == 0 and "PCR" not in self.right):
             if "-" in self.right or "+" in self.right:
                 if self.right == "X+" or self.right == "Y+" or self.right == "U+" or self.right == "S+":
@@ -732,6 +735,9 @@ class IndexedOperand(Operand):
             raw_post_byte |= 0x60
 
         if self.left == "" and "PCR" in self.right:
+            raise OperandTypeError("[{}] invalid indexed expression".format(self.operand_string))
+
+        if self.left != "" and self.left not in ["A", "B", "D"] and ("+" in self.right or "-" in self.right):
             raise OperandTypeError("[{}] invalid indexed expression".format(self.operand_string))
 
         if self.left == "" or (type(self.left) != str and self.left.is_numeric() and self.left.int == 0 and "PCR" not in self.right):
